@@ -5,6 +5,7 @@ import binascii
 import collections.abc
 import copy
 import inspect
+import math
 import re
 import uuid
 
@@ -349,6 +350,10 @@ class FloatProperty(Property):
             value = float(value)
         except Exception:
             raise ValueError("must be a float.")
+
+        if not math.isfinite(value):
+            # (JSON cannot express these, and NaN passes any range check)
+            raise ValueError("must be a finite number.")
 
         if self.min is not None and value < self.min:
             msg = "minimum value is {}. received {}".format(self.min, value)
